@@ -102,6 +102,14 @@ func fixedUse(p0 *prims, r *hlib.Rng, cost int) (want string, use func(p *prims)
 			}
 			return canon(got)
 		}, nil
+	case p0.signer != nil && p0.verifier != nil && cost >= 3:
+		// signing takes seconds here: construction plus the rejection of a non-signature only
+		return "rejected", func(p *prims) string {
+			if err := p.verifier.Verify(pt, ad); err != nil {
+				return "rejected"
+			}
+			return "accepted-garbage"
+		}, nil
 	case p0.signer != nil && p0.verifier != nil:
 		sig, e := p0.signer.Sign(pt)
 		if e != nil {
